@@ -23,10 +23,24 @@ TRUSTED_BASE = [
 ]
 
 
-def sh(cmd, cwd=None, env=None, timeout=1800, input=None):
+def _big_stack():
+    # the extracted model recurses on lists (not tail-recursively); give it a deep native stack
+    import resource
+    try:
+        resource.setrlimit(resource.RLIMIT_STACK, (resource.RLIM_INFINITY, resource.RLIM_INFINITY))
+    except Exception:
+        try:
+            soft, hard = resource.getrlimit(resource.RLIMIT_STACK)
+            resource.setrlimit(resource.RLIMIT_STACK, (hard, hard))
+        except Exception:
+            pass
+
+
+def sh(cmd, cwd=None, env=None, timeout=1800, input=None, big_stack=False):
     t0 = time.time()
     try:
         p = subprocess.run(cmd, cwd=cwd, env=env or os.environ, timeout=timeout, input=input,
+                           preexec_fn=_big_stack if big_stack else None,
                            stdout=subprocess.PIPE, stderr=subprocess.STDOUT, shell=isinstance(cmd, str))
         return p.returncode, p.stdout.decode("utf8", "replace"), time.time() - t0
     except subprocess.TimeoutExpired as e:
@@ -229,7 +243,7 @@ class Ctx:
     def model(self, items, timeout=1800):
         """items: list of (suite, id, bytes) -> {id: result string}"""
         inp = "".join("%s\t%s\t%s\n" % (s, i, b.hex()) for s, i, b in items).encode()
-        rc, out, dt = sh([os.path.join(BUILD, "modelrun")], input=inp, timeout=timeout)
+        rc, out, dt = sh([os.path.join(BUILD, "modelrun")], input=inp, timeout=timeout, big_stack=True)
         res = {}
         for line in out.split("\n"):
             if "\t" in line:
